@@ -716,6 +716,330 @@ def gen_effects(item="G6.effects"):
     return "\n".join(out)
 
 
+
+# ----------------------------------------------------------------------------- G7 : typed size/ratio formulas
+class TExpr:
+    """typed expression translator for the scalar formulas of the resamplers (usize / isize / f64 / f32 / bool).
+
+    Types: N usize, I isize, F f64, S f32, B bool, '?' untyped literal.  f32 values are held in ρ and combined with
+    add32/sub32/mul32/div32, f64 values with the ρ operators, usize values with Nat arithmetic."""
+
+    def __init__(self, toks, item, ftypes, consts):
+        self.t = toks
+        self.i = 0
+        self.item = item
+        self.ftypes = ftypes      # field name -> 'N' | 'F'
+        self.consts = consts      # constant name -> (lean, type)
+        self.params = []          # (lean name, type) in order of first use
+
+    def peek(self):
+        return self.t[self.i] if self.i < len(self.t) else ("eof", "")
+
+    def next(self):
+        tok = self.peek()
+        self.i += 1
+        return tok
+
+    def expect(self, v):
+        k, x = self.next()
+        if x != v:
+            raise TranslateError(self.item, f"expected {v!r}, got {x!r}")
+
+    def fail(self, what):
+        raise TranslateError(self.item, f"unsupported construct: {what}")
+
+    def param(self, name, ty):
+        if (name, ty) not in self.params:
+            self.params.append((name, ty))
+        return name
+
+    # --- literals adopt the type of the other operand
+    def coerce_lit(self, e, ty):
+        lean, t = e
+        if t != "?":
+            return e
+        text = lean
+        if ty == "N":
+            if "." in text:
+                self.fail(f"float literal {text} used as usize")
+            return (text, "N")
+        if ty == "I":
+            return (f"({text} : Int)", "I")
+        if ty == "F":
+            return (lit_to_lean(text if "." in text else text + ".0"), "F")
+        if ty == "S":
+            return (f"(RNum.n32 {lit_to_lean(text if '.' in text else text + '.0')})", "S")
+        self.fail(f"literal {text} in context {ty}")
+
+    def binop(self, op, a, b):
+        if a[1] == "?" and b[1] == "?":
+            # two literals: f64 constant folding, e.g. 1.0 / 5040.0
+            a = self.coerce_lit(a, "F")
+        if a[1] == "?":
+            a = self.coerce_lit(a, b[1])
+        if b[1] == "?":
+            b = self.coerce_lit(b, a[1])
+        if a[1] != b[1]:
+            self.fail(f"operands of {op} have types {a[1]} and {b[1]}")
+        ty = a[1]
+        if op in ("+", "-", "*", "/"):
+            if ty in ("N", "I", "F"):
+                return (f"({a[0]} {op} {b[0]})", ty)
+            if ty == "S":
+                fn = {"+": "add32", "-": "sub32", "*": "mul32", "/": "div32"}[op]
+                return (f"(RNum.{fn} {a[0]} {b[0]})", "S")
+        if op in (">=", "<=", "<", ">"):
+            if ty in ("F", "S"):
+                fn = {">=": "ge", "<=": "le", "<": "lt", ">": "gt"}[op]
+                if fn == "gt":
+                    return (f"(RNum.lt {b[0]} {a[0]})", "B")
+                return (f"(RNum.{fn} {a[0]} {b[0]})", "B")
+            if ty in ("N", "I"):
+                return (f"(decide ({a[0]} {op.replace('>=', '≥').replace('<=', '≤')} {b[0]}))", "B")
+        if op in ("&&", "||") and ty == "B":
+            return (f"({a[0]} {op} {b[0]})", "B")
+        self.fail(f"operator {op} on type {ty}")
+
+    PREC = {"||": 1, "&&": 2, ">=": 3, "<=": 3, "<": 3, ">": 3, "+": 10, "-": 10, "*": 20, "/": 20}
+
+    def expr(self, rbp=0):
+        left = self.unary()
+        while True:
+            k, x = self.peek()
+            # two-character operators arrive as two tokens
+            op = x
+            nxt = self.t[self.i + 1][1] if self.i + 1 < len(self.t) else ""
+            width = 1
+            if x in ("<", ">") and nxt == "=":
+                op, width = x + "=", 2
+            elif x == "&" and nxt == "&":
+                op, width = "&&", 2
+            elif x == "|" and nxt == "|":
+                op, width = "||", 2
+            if op in self.PREC and self.PREC[op] > rbp:
+                self.i += width
+                right = self.expr(self.PREC[op])
+                left = self.binop(op, left, right)
+            else:
+                return left
+
+    def unary(self):
+        k, x = self.peek()
+        if x == "-":
+            self.next()
+            e = self.unary()
+            if e[1] == "?":
+                e = self.coerce_lit(e, "F")
+            if e[1] in ("F", "S", "I"):
+                return (f"(- {e[0]})", e[1])
+            self.fail("unary minus on " + e[1])
+        e = self.postfix(self.primary())
+        return e
+
+    def postfix(self, e):
+        while True:
+            k, x = self.peek()
+            if x == "as":
+                self.next()
+                k2, ty = self.next()
+                e = self.cast(e, ty)
+            elif x == ".":
+                k2, name = self.t[self.i + 1]
+                if name in ("ceil", "floor"):
+                    self.i += 2
+                    self.expect("(")
+                    self.expect(")")
+                    if e[1] == "?":
+                        e = self.coerce_lit(e, "F")
+                    if e[1] not in ("F", "S"):
+                        self.fail(f".{name}() on type {e[1]}")
+                    e = (f"(RNum.{name} {e[0]})", e[1])
+                else:
+                    return e
+            else:
+                return e
+
+    def cast(self, e, ty):
+        lean, t = e
+        tgt = {"f64": "F", "f32": "S", "usize": "N", "isize": "I"}.get(ty)
+        if tgt is None:
+            self.fail(f"cast to {ty}")
+        if t == "?":
+            return self.coerce_lit(e, tgt)
+        if t == tgt:
+            return e
+        table = {("N", "F"): "(RNum.ofNat {})", ("N", "S"): "(RNum.ofNat32 {})", ("F", "S"): "(RNum.n32 {})",
+                 ("F", "N"): "(RNum.toNat {})", ("S", "N"): "(RNum.toNat {})", ("F", "I"): "(RNum.toInt {})",
+                 ("S", "I"): "(RNum.toInt {})", ("I", "F"): "(RNum.ofInt {})", ("N", "I"): "(Int.ofNat {})",
+                 ("S", "F"): "{}"}
+        if (t, tgt) not in table:
+            self.fail(f"cast {t} -> {tgt}")
+        return (table[(t, tgt)].format(lean), tgt)
+
+    def primary(self):
+        k, x = self.next()
+        if x == "(":
+            e = self.expr()
+            self.expect(")")
+            return e
+        if k in ("float", "int"):
+            return (x, "?")
+        if k == "id":
+            if x == "self":
+                self.expect(".")
+                k2, name = self.next()
+                # self.interpolator.len()
+                if name == "interpolator":
+                    self.expect(".")
+                    k3, m = self.next()
+                    if m != "len":
+                        self.fail(f"self.interpolator.{m}")
+                    self.expect("(")
+                    self.expect(")")
+                    return (self.param("sinc_len", "N"), "N")
+                k3, nx = self.peek()
+                if nx == "(":
+                    self.fail(f"method call self.{name}()")
+                if name not in self.ftypes:
+                    self.fail(f"field self.{name} of unknown type")
+                return (self.param(name, self.ftypes[name]), self.ftypes[name])
+            if x in self.consts:
+                return self.consts[x]
+            if x in self.ftypes:
+                return (self.param(x, self.ftypes[x]), self.ftypes[x])
+            self.fail(f"identifier {x}")
+        self.fail(f"token {x!r}")
+
+    def done(self):
+        if self.i != len(self.t):
+            raise TranslateError(self.item, f"trailing tokens {self.t[self.i:self.i+4]}")
+
+
+def struct_field_types(src, name, item):
+    m = re.search(r"pub struct\s+" + name + r"\s*<T>\s*\{", src)
+    if not m:
+        raise TranslateError(item, f"struct {name} not found")
+    body, _ = block_after(src, m.end() - 1, item)
+    out = {}
+    for fm in re.finditer(r"(\w+)\s*:\s*([\w<>:\[\] ,]+?),", body):
+        ty = fm.group(2).strip()
+        if ty == "usize":
+            out[fm.group(1)] = "N"
+        elif ty == "f64":
+            out[fm.group(1)] = "F"
+    return out
+
+
+def impl_method_body(src, ty, method, item, trait=True):
+    pat = (r"impl<T>\s+Resampler<T>\s+for\s+" + ty + r"<T>") if trait else (r"impl<T>\s+" + ty + r"<T>")
+    m = re.search(pat, src)
+    if not m:
+        raise TranslateError(item, f"impl block of {ty} not found")
+    impl, _ = block_after(src, m.end(), item)
+    _, body = fn_body(impl, method, item)
+    return body
+
+
+def lean_params(params):
+    return " ".join(f"({n} : {'Nat' if t == 'N' else 'ρ'})" for n, t in params)
+
+
+def gen_formula(item, lean_name, text, ftypes, consts, want_type, doc, extra_locals=None):
+    ft = dict(ftypes)
+    if extra_locals:
+        ft.update(extra_locals)
+    p = TExpr(lex(text, item), item, ft, consts)
+    e = p.expr()
+    p.done()
+    if e[1] == "?":
+        e = p.coerce_lit(e, want_type)
+    if e[1] != want_type:
+        raise TranslateError(item, f"expression has type {e[1]}, expected {want_type}")
+    lty = {"N": "Nat", "F": "ρ", "B": "Bool", "I": "Int"}[want_type]
+    return (f"/-- {doc} -/\ndef {lean_name} {{ρ : Type}} [RNum ρ] {lean_params(p.params)} : {lty} :=\n  {e[0]}",
+            [n for n, _ in p.params])
+
+
+def find_stmt(body, pattern, item):
+    m = re.search(pattern, body, re.S)
+    if not m:
+        raise TranslateError(item, f"statement not found: {pattern}")
+    return m.group(1).strip()
+
+
+def single_expr(body, item):
+    b = body.strip()
+    b = re.sub(r"^trace!\s*\([^;]*\);\s*", "", b)
+    if ";" in b:
+        raise TranslateError(item, f"body is not a single expression: {b[:60]!r}")
+    return b
+
+
+def gen_formulas(item_prefix="G7"):
+    out = []
+    sigs = {}
+    fast = strip_comments(read("asynchro_fast.rs"))
+    sinc = strip_comments(read("asynchro_sinc.rs"))
+    consts_fast = {"POLYNOMIAL_LEN_U": ("Fast.polyLen", "N"), "POLYNOMIAL_LEN_I": ("(Int.ofNat Fast.polyLen)", "I")}
+    ft = {"FastFixedIn": struct_field_types(fast, "FastFixedIn", item_prefix),
+          "FastFixedOut": struct_field_types(fast, "FastFixedOut", item_prefix),
+          "SincFixedIn": struct_field_types(sinc, "SincFixedIn", item_prefix),
+          "SincFixedOut": struct_field_types(sinc, "SincFixedOut", item_prefix)}
+    RANGE = r"if\s+((?:\(new_ratio.*?)\s*)\{\s*if\s*!ramp"
+
+    def add(name, text, fts, consts, ty, doc, loc=None):
+        item = f"{item_prefix}.{name}"
+        d, params = gen_formula(item, name, text, fts, consts, ty, doc, loc)
+        out.append(d)
+        out.append("")
+        sigs[name] = params
+
+    # ---- FastFixedIn
+    T, src_ = "FastFixedIn", fast
+    add("fastIn_output_frames_max", single_expr(impl_method_body(src_, T, "output_frames_max", "G7"), "G7"), ft[T], consts_fast, "N", "FastFixedIn::output_frames_max")
+    add("fastIn_output_frames_next", single_expr(impl_method_body(src_, T, "output_frames_next", "G7"), "G7"), ft[T], consts_fast, "N", "FastFixedIn::output_frames_next")
+    add("fastIn_output_delay", single_expr(impl_method_body(src_, T, "output_delay", "G7"), "G7"), ft[T], consts_fast, "N", "FastFixedIn::output_delay")
+    add("fastIn_needed_len", find_stmt(impl_method_body(src_, T, "process_into_buffer", "G7"), r"let\s+needed_len\s*=\s*(.*?);", "G7.fastIn_needed_len"), ft[T], consts_fast, "N", "FastFixedIn::process_into_buffer: needed_len")
+    add("fastIn_range_test", find_stmt(impl_method_body(src_, T, "set_resample_ratio", "G7"), RANGE, "G7.fastIn_range_test"), ft[T], consts_fast, "B", "FastFixedIn::set_resample_ratio: accepted range", {"new_ratio": "F"})
+    # ---- FastFixedOut
+    T = "FastFixedOut"
+    add("fastOut_input_frames_max", single_expr(impl_method_body(src_, T, "input_frames_max", "G7"), "G7"), ft[T], consts_fast, "N", "FastFixedOut::input_frames_max")
+    add("fastOut_output_delay", single_expr(impl_method_body(src_, T, "output_delay", "G7"), "G7"), ft[T], consts_fast, "N", "FastFixedOut::output_delay")
+    add("fastOut_needed_after", find_stmt(impl_method_body(src_, T, "process_into_buffer", "G7"), r"self\.needed_input_size\s*=\s*(.*?);", "G7.fastOut_needed_after"), ft[T], consts_fast, "N", "FastFixedOut::process_into_buffer: next needed_input_size")
+    add("fastOut_needed_set", find_stmt(impl_method_body(src_, T, "set_resample_ratio", "G7"), r"self\.needed_input_size\s*=\s*(.*?);", "G7.fastOut_needed_set"), ft[T], consts_fast, "N", "FastFixedOut::set_resample_ratio: needed_input_size")
+    add("fastOut_needed_reset", find_stmt(impl_method_body(src_, T, "reset", "G7"), r"self\.needed_input_size\s*=\s*(.*?);", "G7.fastOut_needed_reset"), ft[T], consts_fast, "N", "FastFixedOut::reset: needed_input_size")
+    newb = impl_method_body(src_, T, "new", "G7", trait=False)
+    add("fastOut_needed_new", find_stmt(newb, r"let\s+needed_input_size\s*=\s*(.*?);", "G7.fastOut_needed_new"), ft[T], consts_fast, "N", "FastFixedOut::new: needed_input_size", {"resample_ratio": "F", "chunk_size": "N"})
+    add("fastOut_buffer_len_new", find_stmt(newb, r"let\s+buffer_channel_length\s*=\s*(.*?);", "G7.fastOut_buffer_len_new"), ft[T], consts_fast, "N", "FastFixedOut::new: buffer_channel_length", {"max_resample_ratio_relative": "F", "needed_input_size": "N"})
+    add("fastOut_range_test", find_stmt(impl_method_body(src_, T, "set_resample_ratio", "G7"), RANGE, "G7.fastOut_range_test"), ft[T], consts_fast, "B", "FastFixedOut::set_resample_ratio: accepted range", {"new_ratio": "F"})
+    # ---- SincFixedIn
+    T, src_ = "SincFixedIn", sinc
+    m = re.search(r"fn\s+calc_needed_len\b", src_)
+    add("sincIn_calc_needed_len", single_expr(fn_body(src_, "calc_needed_len", "G7")[1], "G7"), ft[T], {}, "N", "SincFixedIn::calc_needed_len (output_frames_next)")
+    add("sincIn_output_frames_max", single_expr(impl_method_body(src_, T, "output_frames_max", "G7"), "G7"), ft[T], {}, "N", "SincFixedIn::output_frames_max")
+    add("sincIn_output_delay", single_expr(impl_method_body(src_, T, "output_delay", "G7"), "G7"), ft[T], {}, "N", "SincFixedIn::output_delay")
+    add("sincIn_range_test", find_stmt(impl_method_body(src_, T, "set_resample_ratio", "G7"), RANGE, "G7.sincIn_range_test"), ft[T], {}, "B", "SincFixedIn::set_resample_ratio: accepted range", {"new_ratio": "F"})
+    # ---- SincFixedOut
+    T = "SincFixedOut"
+    add("sincOut_update_needed_len", find_stmt(fn_body(src_, "update_needed_len", "G7")[1], r"self\.needed_input_size\s*=\s*(.*?);", "G7.sincOut_update_needed_len"), ft[T], {}, "N", "SincFixedOut::update_needed_len")
+    add("sincOut_input_frames_max", single_expr(impl_method_body(src_, T, "input_frames_max", "G7"), "G7"), ft[T], {}, "N", "SincFixedOut::input_frames_max")
+    add("sincOut_output_delay", single_expr(impl_method_body(src_, T, "output_delay", "G7"), "G7"), ft[T], {}, "N", "SincFixedOut::output_delay")
+    add("sincOut_needed_reset", find_stmt(impl_method_body(src_, T, "reset", "G7"), r"self\.needed_input_size\s*=\s*(.*?);", "G7.sincOut_needed_reset"), ft[T], {}, "N", "SincFixedOut::reset: needed_input_size")
+    m = re.search(r"impl<T>\s+SincFixedOut<T>", src_)
+    implb, _ = block_after(src_, m.end(), "G7")
+    newb = fn_body(implb, "new_with_interpolator", "G7")[1]
+    newb = newb.replace("interpolator.len()", "self.interpolator.len()")
+    add("sincOut_needed_new", find_stmt(newb, r"let\s+needed_input_size\s*=\s*(.*?);", "G7.sincOut_needed_new"), ft[T], {}, "N", "SincFixedOut::new_with_interpolator: needed_input_size", {"resample_ratio": "F", "chunk_size": "N"})
+    add("sincOut_buffer_len_new", find_stmt(newb, r"let\s+buffer_channel_length\s*=\s*(.*?);", "G7.sincOut_buffer_len_new"), ft[T], {}, "N", "SincFixedOut::new_with_interpolator: buffer_channel_length", {"max_resample_ratio_relative": "F", "needed_input_size": "N"})
+    add("sincOut_range_test", find_stmt(impl_method_body(src_, T, "set_resample_ratio", "G7"), RANGE, "G7.sincOut_range_test"), ft[T], {}, "B", "SincFixedOut::set_resample_ratio: accepted range", {"new_ratio": "F"})
+    # parameter orders, for the tie lemmas
+    out.append("/-- which struct fields / locals each generated formula reads, in order of first use: a formula that starts reading a")
+    out.append("    different field (e.g. `resample_ratio_original` instead of `resample_ratio`) changes this table -/")
+    out.append("def formulaParams : List (String × List String) := [")
+    out.append(",\n".join(f'  ("{k}", [{", ".join(chr(34) + p + chr(34) for p in v)}])' for k, v in sigs.items()) + "]")
+    return "\n".join(out)
+
+
 # ----------------------------------------------------------------------------- driver
 HEADER = """/-
 GENERATED by /verif/translate/rs2lean.py from /repo/src — do not edit.
@@ -757,6 +1081,10 @@ def generate():
     parts.append("")
     parts.append(gen_cutoff())
     parts.append("end Win\n")
+    parts.append("namespace Formulas")
+    parts.append("open Rubato.Gen")
+    parts.append(gen_formulas())
+    parts.append("end Formulas\n")
     parts.append("namespace Effects")
     parts.append(gen_effects())
     parts.append("end Effects\n")
